@@ -263,9 +263,20 @@ pub fn check_case(case: &Case, st: &mut Stats) -> Check {
             SOp::Write(name, len_sel, fill) => {
                 let data = content(*len_sel, *fill);
                 s.trace.push(format!("write({name:?}, {} bytes)", data.len()));
+                // the same bytes reach the writer in one piece or in several:
+                // many small pieces, block-sized pieces, a small piece followed
+                // by a large one (the order a buffering writer must keep)
+                let pieces = crate::seq::piece_lengths(data.len(), *fill);
+                if pieces.len() > 1 {
+                    st.class("write:in-pieces");
+                }
                 let res = guard("write_stream", &s.trace, || -> std::io::Result<()> {
                     let mut w = s.pkg.write_stream(name)?;
-                    w.write_all(&data)?;
+                    let mut at = 0;
+                    for p in &pieces {
+                        w.write_all(&data[at..at + p])?;
+                        at += p;
+                    }
                     w.flush()
                 })?;
                 match res {
